@@ -87,4 +87,6 @@ def main(tier, only=None):
     return chk.finish()
 
 
-replay = vf.generic_replay
+def replay(path):
+    import e1replay
+    return e1replay.replay_with(path)
